@@ -137,17 +137,20 @@ def judge(w, B1, T1, close_after):
     # chain state: only well-formed, fully valid blocks may have entered
     new_blocks = a['state'] - b['state']
     H = w.fc.head()
+    entered_valid = None
     for bid in new_blocks:
-        if bid != B1.bid:
-            bad.append(('state-changed', "a block other than the valid one of the transcript entered chain state"))
+        blk = w.node.cm.coinstate.block_by_hash[bid]
+        tags = refmodel.validate_block(blk, H, int(w.net.clock())) if blk.previous_block_hash == H.bid else {'parent'}
+        if tags:
+            bad.append(('state-changed', "a block that is not fully valid entered chain state (%s)" % sorted(tags)))
         else:
-            blk = w.node.cm.coinstate.block_by_hash[bid]
-            if refmodel.validate_block(blk, H, int(w.net.clock())) or enc.enc_block(blk) != B1.ser:
-                bad.append(('state-changed', "an invalid / altered block entered chain state"))
+            entered_valid = world.Node(blk, H, path=('new',))
+    if len(new_blocks) > 1:
+        bad.append(('state-changed', "more than one block entered chain state"))
     if b['state'] - a['state']:
         bad.append(('state-changed', "blocks disappeared from chain state"))
-    newH = B1 if B1.bid in a['state'] else H
-    if a['head'] != (newH.bid if B1.bid in a['state'] else b['head']):
+    newH = entered_valid if entered_valid is not None else H
+    if a['head'] != (newH.bid if entered_valid is not None else b['head']):
         bad.append(('state-changed', "head changed without a valid block"))
     # pool: additions must be valid and compatible; removals only of transactions invalid at the new head
     pool_txs = {enc.txid(t): t for t in w.node.cm.transaction_pool}
@@ -156,8 +159,8 @@ def judge(w, B1, T1, close_after):
         t = pool_txs[tid]
         tags = refmodel.validate_tx(t, newH.utxo)
         refs = {refmodel.refkey(i.output_reference) for i in t.inputs}
-        if tid not in b['pool'] and (tags or refs & used or tid != enc.txid(T1)):
-            bad.append(('pool-changed', "a transaction entered the pool that is not the valid one of the transcript (%s)" % sorted(tags)))
+        if tid not in b['pool'] and (tags or refs & used):
+            bad.append(('pool-changed', "a transaction entered the pool that is not valid / compatible (%s)" % sorted(tags)))
         used |= refs
     for tid in b['pool']:
         if tid not in a['pool'] and not refmodel.validate_tx(w.pending, newH.utxo):
@@ -165,7 +168,7 @@ def judge(w, B1, T1, close_after):
     # store: committed rows = chain state; nothing left in the buffer
     # (a valid block that arrives as bulk download - in_response_to != 0 - is by design buffered, not yet flushed)
     if not set(a['rows']) <= set(a['state']) or set(a['rows']) | set(a['buffer']) != set(a['state']) \
-            or set(a['rows']) - set(b['rows']) - {B1.bid} or len(a['buffer']) != len(set(a['buffer'])):
+            or set(a['rows']) - set(b['rows']) - {newH.bid} or len(a['buffer']) != len(set(a['buffer'])):
         bad.append(('store-changed', "block store rows / write buffer do not match chain state (%d rows, %d in state, %d buffered)" % (
             len(a['rows']), len(a['state']), len(a['buffer']))))
     # the victim's pending frame still completes normally
@@ -292,6 +295,41 @@ def mutant_families(ctx, phase):
         pl = msgs[names.index(nm)][1]
         for v in (b'\xff\xff\xff\xff\x7f', b'\x83\xff\x7f', b'\x80\x01', b'\x02', b'\x7f', b'\xff' * 12 + b'\x00'):
             yield 'listlen', '%s count replaced by %s' % (nm, v.hex()), b''.join(hello) + frame(pl[:off] + v + pl[off + 1:]), False, F1
+    # 7b. crafted, structurally invalid / rule-breaking blocks and transactions as data messages (one broken rule each)
+    w = AttackWorld(phase, False)
+    try:
+        from .. import cands
+        H = w.fc.head()
+        hdr53 = msgs[names.index('datatx')][1][:53]
+        for fam in (cands.c05_candidates, cands.c02_candidates, cands.c01_candidates):
+            for c in fam(H, w.uni):
+                if c.wire() is None:
+                    continue
+                pl = hdr53 + b'\x00\x04' + b'\x00' + b'\x00\x00' + enc.enc_block(c.block)
+                yield 'broken-block', c.name, b''.join(hello) + frame(pl), False, F1
+        # a block that states a height far beyond its chain (evidence cannot even be recomputed)
+        far = world.assemble(H, [], K[4], H.ts + 120, height=H.height + 1000, no_evidence=True)
+        yield 'broken-block', 'height-far-beyond-chain', b''.join(hello) + frame(
+            hdr53 + b'\x00\x04\x00\x00\x00' + enc.enc_block(far)), False, F3
+        from . import c13
+
+        class TW:
+            stored = {(): w.uni.root}
+            uni = w.uni
+
+            @staticmethod
+            def head():
+                return H
+        for p in c09.PREFIX:
+            TW.stored[p] = w.uni.get(p)
+        for nm, tx in c13.tx_menu(TW).items():
+            try:
+                body = b'\x00\x04\x00\x00\x02' + enc.enc_tx(tx)
+            except Exception:
+                continue
+            yield 'broken-tx', nm, b''.join(hello) + frame(hdr53 + body), False, F1
+    finally:
+        w.close()
     # 8. magic
     for i in range(4):
         for v in (0, 0xff, full[i] ^ 1):
